@@ -20,7 +20,7 @@ type FuncResult struct {
 }
 
 func newExec(p *Program, fn *ssa.Function, c *Contract, prop string) *Exec {
-	x := &Exec{prog: p, fn: fn, c: c, prop: prop, decls: newDecls(), strLits: map[string]Term{}, classes: map[string]classInfo{}, closures: map[string]Clo{}, own: map[string]string{}, recFuncs: map[string]*recFunc{}, loops: map[*ssa.Function]*loopInfo{}, ordinals: map[string]int{}, assumptions: map[string]bool{}, maxPaths: 4096}
+	x := &Exec{prog: p, fn: fn, c: c, prop: prop, decls: newDecls(), strLits: map[string]Term{}, classes: map[string]classInfo{}, closures: map[string]Clo{}, own: map[string]string{}, stores: map[string]storeInfo{}, freshRefs: map[string]bool{}, recFuncs: map[string]*recFunc{}, loops: map[*ssa.Function]*loopInfo{}, ordinals: map[string]int{}, assumptions: map[string]bool{}, maxPaths: 4096}
 	x.bv = c.Ints == "bv64"
 	return x
 }
@@ -88,8 +88,24 @@ func verifyFunc(p *Program, c *Contract, prop string) (res *FuncResult) {
 	}
 	// global invariants of the package
 	gev := &specEnv{x: x, st: st, vars: map[string]Val{}, c: c}
+	ctext := contractText(c)
 	for _, g := range p.specs.Globals[c.Pkg] {
-		st.assume(gev.evalBool(g))
+		if !globalRelevant(p, g, ctext) {
+			continue
+		}
+		func() {
+			defer func() {
+				if r := recover(); r != nil {
+					if u, ok := r.(unsupported); ok && x.bv {
+						x.note("bv64 mode: global invariant not expressible, skipped: " + u.msg)
+						st.inQuant = 0
+						return
+					}
+					panic(r)
+				}
+			}()
+			st.assume(gev.evalBool(g))
+		}()
 	}
 	ev := &specEnv{x: x, st: st, vars: x.params, c: c}
 	x.bindLets(ev, c)
@@ -295,6 +311,23 @@ func (x *Exec) globalStore(fr *Frame, st *State, ins *ssa.Store, p Ptr) {
 
 // topConjuncts splits "(and a b c)" into its arguments (nested ands flattened one level).
 func topConjuncts(t Term) []Term {
+	if strings.HasPrefix(t.S, "(=> ") && balanced(t.S) {
+		// (=> P (and A B)) splits into (=> P A), (=> P B)
+		body := t.S[4 : len(t.S)-1]
+		n := sortEnd(body)
+		if n < len(body) {
+			p := body[:n]
+			q := strings.TrimSpace(body[n:])
+			if strings.HasPrefix(q, "(and ") && balanced(q) && balanced(p) {
+				var out []Term
+				for _, c := range topConjuncts(Term{q, sBool}) {
+					out = append(out, Term{"(=> " + p + " " + c.S + ")", sBool})
+				}
+				return out
+			}
+		}
+		return []Term{t}
+	}
 	if !strings.HasPrefix(t.S, "(and ") {
 		return []Term{t}
 	}
@@ -401,4 +434,38 @@ func (x *Exec) errorPtrTag() *errTag {
 		return nil
 	}
 	return &errTag{typ: types.NewPointer(t), class: "evaluator.Error.err"}
+}
+
+func contractText(c *Contract) string {
+	var sb strings.Builder
+	for _, cl := range c.Requires {
+		sb.WriteString(cl.Text + "\n")
+	}
+	for _, cl := range c.Ensures {
+		sb.WriteString(cl.Text + "\n")
+	}
+	for _, l := range c.Loops {
+		for _, cl := range l.Invariants {
+			sb.WriteString(cl.Text + "\n")
+		}
+	}
+	for _, l := range c.Lets {
+		sb.WriteString(l.Text + "\n")
+	}
+	return sb.String()
+}
+
+// globalRelevant: an axiom about uninterpreted spec predicates (e.g. wf) is only assumed in functions
+// whose contract mentions one of those predicates; other global invariants are always assumed.
+func globalRelevant(p *Program, g, ctext string) bool {
+	uses := false
+	for name, pd := range p.specs.Pures {
+		if pd.Body == "" && strings.Contains(g, name+"(") {
+			uses = true
+			if strings.Contains(ctext, name+"(") {
+				return true
+			}
+		}
+	}
+	return !uses
 }
